@@ -1,5 +1,6 @@
 import Crd.Lemmas.NoCrash2
 import Crd.Props.C10
+import Crd.Generated.Sites
 
 /-!
 # C09 — no input crashes or hangs crd; failures are signalled; nonsense is refused
@@ -323,6 +324,50 @@ theorem written_piece_was_valid (f : WriteFlags) (attrs : List RawAttr) (rs : Li
               · exact Crd.Props.C10.decoded_is_valid a _ ha (hd a (by simp))
               · exact ih ys has (fun r hr => hd r (by simp [hr])) i hi'
       exact this rs is h1 hdeg
+
+
+/-! ## every call that panics by design is known, and is fed only what cannot make it panic -/
+
+/-- site (regenerated spelling, arguments as written) and why it cannot fire on user input -/
+def expectedPanicSites : List (String × String) :=
+  [("must cmd/flag.go getScale op.MustParseKey(\"C\")", "constant"),
+   ("must note/degree.go <init> util.MustInverseMap(stringCoerceDegreeNameMap)", "start-up table, injective (C12 inverted_tables_injective)"),
+   ("must note/name.go <init> util.MustInverseMap(nameStringMap)", "start-up table, injective"),
+   ("must note/name.go <init> util.MustNewRing(C, D, E, F, G, A, B)", "constants, non-empty"),
+   ("must note/note.go <init> regexp.MustCompile(`([A-G])([#b]?)`)", "constant pattern"),
+   ("must op/circle.go circleMemberSeed.member MustNewScale(MustParseKey(x))", "x ranges over the circle seeds: C14 circles_build"),
+   ("must op/circle.go circleMemberSeed.member MustParseKey(x)", "x ranges over the circle seeds: C14 circles_build"),
+   ("must op/circle.go circleSeed.circle util.MustNewRing(xs)", "twelve seeds, non-empty"),
+   ("must op/key.go <init> regexp.MustCompile(`([A-G])([#b♯♭]?)(m?)`)", "constant pattern (C10 key_pattern_modelled)"),
+   ("must op/key.go <init> util.MustInverseMap(accidentalStringMap)", "start-up table, injective"),
+   ("must op/scale.go keySignatures MustParseKey(k)", "k ranges over the keys of keyStringSignatures: signature_keys_parse"),
+   ("must op/scale.go newRawScaleNotes util.MustNewRing(note.C, note.D, note.E, note.F, note.G, note.A, note.B)", "constants, non-empty"),
+   ("must op/velocity.go <init> util.MustInverseMap(stringDynamicSignMap)", "start-up table, injective"),
+   ("must play/args.go midiArgs.writeWhenUpdated op.MustNewScale(v)", "modelled as the `MustNewScale` panic outcome of settingsCalls: unreachable, write_never_crashes"),
+   ("must play/write.go <init> op.MustNewMeter(4, 4)", "constants"),
+   ("must play/write.go <init> op.MustParseKey(\"C\")", "constant"),
+   ("panic chord/attribute.go BasicAttributes logx.Panic(err)", "embedded attribute.yml parses: regenerated as Generated.builtinAttrs"),
+   ("panic chord/chord.go BasicChords logx.PanicOnError(err)", "embedded chord.yml parses: regenerated as Generated.builtinChords"),
+   ("panic logx/log.go Panic panic(err)", "the helper itself"),
+   ("panic midix/track.go TrackNoSelectorImpl.Select logx.Panic(errorx.Unexpected(\"TrackOp: %#v\", opType))", "only the two op types exist: C06 selector_in_range"),
+   ("panic note/accidental.go Accidental.Semitone logx.Panic(fmt.Errorf(\"%w: %v\", ErrUnknownAccidental, a))", "modelled as `none` of NAcc.semitone?; only reached with the five accidentals"),
+   ("panic note/degree.go CoerceDegreeName.String logx.Panic(ErrInvalidDegree)", "modelled as coercePanicText inside Sprintf (recovered by fmt); valid degrees never reach it: C10"),
+   ("panic note/degree.go MustNewDegree logx.Panic(errorx.Unexpected(\"MustNewDegree(%d, %s)\", value, name))", "only called on table constants"),
+   ("panic note/name.go Name.AddDegree logx.Panic(ErrUnknownName)", "modelled as the panic outcome of Note.addDegree; only `info` commands on parsed notes"),
+   ("panic note/name.go Name.Semitone logx.Panic(ErrUnknownName)", "modelled as the `Name.Semitone` panic outcome: unreachable, write_never_crashes / text_conv_never_crashes"),
+   ("panic note/value.go MustNewValue logx.PanicOnError(err)", "only called on constants"),
+   ("panic op/key.go MustParseKey logx.PanicOnError(err)", "see the MustParseKey call sites above"),
+   ("panic op/meter.go MustNewMeter logx.PanicOnError(err)", "see the MustNewMeter call site above"),
+   ("panic op/scale.go MustNewScale logx.PanicOnError(err)", "see the MustNewScale call sites above"),
+   ("panic util/conv.go MustInverseMap logx.PanicOnError(err)", "see the MustInverseMap call sites above"),
+   ("panic util/ring.go MustNewRing logx.PanicOnError(err)", "see the MustNewRing call sites above")]
+
+/-- **the list of panicking calls regenerated from /repo (with their arguments as written) is exactly the list
+accounted for here**: a new `Must…`/`panic` call, or a constant argument replaced by a variable, breaks this obligation -/
+theorem panic_sites_accounted : Crd.Generated.panicSites = expectedPanicSites.map (·.1) := by decide
+
+/-- every key string of the signature table parses (so `MustParseKey(k)` at start-up cannot fire) and has a scale -/
+theorem signature_keys_parse : ∀ e ∈ Crd.Generated.keyStringSignatures, (parseKey e.1.toList).isSome = true := by decide
 
 /-! non-vacuity -/
 example : decodeRat "0/4" = .error .invalid ∧ decodeRat "1/0" = .error .invalid ∧ decodeBPM "0" = .error .invalid := by decide
